@@ -345,6 +345,7 @@ def run(ctx, which):
         "dropped_by_normaliser": [list(d) for d in n.dropped],
         "kernel_flags": n.flags,
         "solver_seconds_total": round(sum(r.seconds for r in results), 2),
+        "second_back_end": {"reproved_by_cvc5": sum(1 for r in results if r.second == "unsat"), "cvc5_unknown": sum(1 for r in results if r.second == "unknown")},
         "slow_queries_over_10s": [r.name for r in real if r.seconds > 10],
         "samples": [{"obligation": r.name, "backend": r.backend, "verdict": r.verdict, "seconds": round(r.seconds, 3),
                      "site": r.ob.meta.get("site", "")} for r in real[:: max(1, len(real) // 12)]][:14],
